@@ -102,9 +102,17 @@ FSMRACE_RULE = (" PLUS fsmrace: real nodes with a state machine whose Apply/Snap
                 "received snapshot and the final chunk arrives meanwhile: it must end with the received state (defect D23)")
 
 
-def cosim_plan(exclude=(), handlers=None, d3=False, grpc=False, fsmrace=False):
+API03_RULE = (" PLUS apidiff -family c03: 5 scripted programs x {1,3} voters x 2 on real nodes with real timers: node 0 is made leader, "
+              "partitioned away (or its AppendEntries held), accepts replicated submissions whose futures are kept, is stopped and "
+              "restarted AS THE SAME OBJECT (Stop/Start/Restart) while the other nodes elect a leader and commit other operations at the "
+              "same indexes; every kept future that resolves successfully must carry exactly the bytes submitted through it")
+
+
+def cosim_plan(exclude=(), handlers=None, d3=False, grpc=False, fsmrace=False, api03=False):
     def drivers(ctx):
         d = []
+        if api03:
+            d.append({"name": "apidiff", "cmd": [os.path.join(HB, "apidiff"), "-family", "c03", "-seed", str(ctx.seed)], "props": ["C03"]})
         if fsmrace:
             d.append({"name": "fsmrace", "cmd": [os.path.join(HB, "fsmrace")]})
         if grpc:
@@ -116,8 +124,8 @@ def cosim_plan(exclude=(), handlers=None, d3=False, grpc=False, fsmrace=False):
         if handlers:
             d += handler_driver(handlers)(ctx)
         return d + cosim_drivers(exclude)(ctx)
-    return {"harness": ["cosim"] + (["handlerdiff"] if handlers else []) + (["d3witness"] if d3 else []) + (["grpcsnap"] if grpc else []) + (["fsmrace"] if fsmrace else []), "drivers": drivers,
-            "rule": COSIM_RULE + (HANDLER_RULE if handlers else "") + (GRPC_RULE if grpc else "") + (FSMRACE_RULE if fsmrace else ""), "assumptions": COSIM_ASSUME,
+    return {"harness": ["cosim"] + (["apidiff"] if api03 else []) + (["handlerdiff"] if handlers else []) + (["d3witness"] if d3 else []) + (["grpcsnap"] if grpc else []) + (["fsmrace"] if fsmrace else []), "drivers": drivers,
+            "rule": COSIM_RULE + (HANDLER_RULE if handlers else "") + (GRPC_RULE if grpc else "") + (FSMRACE_RULE if fsmrace else "") + (API03_RULE if api03 else ""), "assumptions": COSIM_ASSUME,
             "nontrivial": (lambda l: l.startswith("HSEQ")) if handlers else (lambda l: False)}
 
 
@@ -165,7 +173,7 @@ PLANS = {
                         "sort.Slice leaves an input without inversions unchanged (the comparator in directories() always returns false); "
                         "ReadDir returns names sorted, timestamps have equal digit counts"],
     },
-    "C01": cosim_plan(_SAFETY_EXCL, None, False, False, True), "C02": cosim_plan(_SAFETY_EXCL, None, True), "C03": cosim_plan(_SAFETY_EXCL, None, False, False, True),
+    "C01": cosim_plan(_SAFETY_EXCL, None, False, False, True), "C02": cosim_plan(_SAFETY_EXCL, None, True), "C03": cosim_plan(_SAFETY_EXCL, None, False, False, True, True),
     "C04": cosim_plan(_SAFETY_EXCL, None, False, False, True), "C05": cosim_plan(), "C06": cosim_plan(_SAFETY_EXCL, "ae"), "C07": cosim_plan(_SAFETY_EXCL),
     "C08": cosim_plan(_SAFETY_EXCL, "rv"), "C09": cosim_plan(), "C10": cosim_plan(_SAFETY_EXCL, "is", False, False, True), "C11": cosim_plan(_SAFETY_EXCL, "is"),
     "C14": cosim_plan(_SAFETY_EXCL), "C15": cosim_plan((), None, False, True, True), "C16": cosim_plan(), "C17": cosim_plan(),
